@@ -400,7 +400,9 @@ class World:
         assoc = rng.choice(options[:-1]) if len(options) > 1 and rng.random() < 0.8 else "OBJECT"
         return {"t": t, "dkind": rng.choice(build.DATA_KINDS), "assoc": assoc,
                 "len": rng.choices(["exact", "short", "long"], [8, 2, 1])[0], "name": build.name(rng),
-                "pg": (rng.choice(["pgA", "pgB", "pgC"]) if rng.random() < 0.5 else None), "vseed": rng.getrandbits(32)}
+                "pg": (rng.choice(["pgA", "pgB", "pgC"]) if rng.random() < 0.5 else None), "vseed": rng.getrandbits(32),
+                # created with save_on_creation=False: written by the close (only where the per-event file oracle of C09 is not running)
+                "deferred": self.prop in ("C01", "C02", "C11") and rng.random() < 0.12}
 
     def do_add_data(self, op):
         h = op["h"]
@@ -441,7 +443,17 @@ class World:
         self.touch_pg(h, obj_uid)
         obj = self.ent(h, obj_uid)
         spec = build.data_spec(dkind, values, assoc)
-        ent, outcome = self.call(lambda: obj.add_data({name: spec}, property_group=pg_name), expect, what=f"add_data {dkind}")
+        if op.get("deferred") and dkind == "float" and expect == "ok" and length == n and assoc in ("VERTEX", "CELL") and not self.cfg.get("ro"):
+            from geoh5py.data import Data
+
+            ws = self.h[h].ws
+            pg_name = None
+            ent, outcome = self.call(lambda: ws.create_entity(Data, save_on_creation=False,
+                                                              entity={"parent": obj, "association": assoc, "name": name, "values": np.asarray(spec["values"], dtype=float)},
+                                                              entity_type={"primitive_type": "FLOAT"}), expect, what="create_entity(save_on_creation=False)")
+            self.sim.probe("deferred_creation")
+        else:
+            ent, outcome = self.call(lambda: obj.add_data({name: spec}, property_group=pg_name), expect, what=f"add_data {dkind}")
         del obj
         if expect == "refuse":
             if outcome == "accepted":
